@@ -392,6 +392,18 @@ def pos(db, ctx):
                "%s: existing-id early return=%s, register_pos only in the Allow arm=%s, Forbid arm is Err=%s, "
                "register_pos calls outside the mode match=%d" % (f.short(), first_ok, reg_guarded, forbid_err, regs_outside),
                fn=f)
+    # the lookup itself must reject a POS of the wrong arity: zip/all over a shorter or longer list would match by prefix
+    gp = db.one("get_part_of_speech_id", "Grammar")
+    from ..db import walk_x
+    arity = False
+    for n, _ in walk_x(gp.hir):
+        c = cmp_atom(n) if n.get("k") == "Binary" else None
+        if c and c[0] in ("Ne", "Eq") and any(x.get("k") == "Path" and path_ends(x.get("path"), "POS_DEPTH") or lit_int(x) == 6 for x in (peel_casts(c[1]), peel_casts(c[2]))) \
+                and ".len()" in render(n):
+            arity = True
+    ctx.ob("get_part_of_speech_id|arity", arity,
+           "Grammar::get_part_of_speech_id compares the number of components with POS_DEPTH before matching: %s (without it a 5- or 7-component POS "
+           "resolves to an existing id by prefix instead of being rejected)" % arity, fn=gp)
     # path rewrite plugins: a POS lookup that returns None must become Err in set_up
     for f in db.impls_of("PathRewritePlugin::set_up"):
         if not mentions(f.hir, is_call_to("get_part_of_speech_id")):
